@@ -199,7 +199,8 @@ Selected(o, R, T1, T2, p, q) ==
 \* representation (y: the operand's view), comparing the operands' own values (vb), and comparing
 \* both after conversion to float64 (epsilon is a float64)
 EqualsRes(Ta, x, Tb, vb, y) ==
-  LET c == Cmp(x, y) IN
+  LET ZT(v) == IF v.k = "tiny" THEN VZero ELSE v     \* far below epsilon = 1/8
+      c == Cmp(ZT(x), ZT(y)) IN
   IF c = "na" THEN Undef(x, y)
   ELSE IF y # vb \/ Convert(Ta, "float64", x) # x \/ Convert(Tb, "float64", vb) # vb THEN AnyRes
   ELSE VBool(c = "eq")     \* distinct grid values differ by >= 1/4
@@ -361,13 +362,20 @@ EmitVec(op, R) ==
          \* the element type holds every entry; SmoothMax forms exp(alpha x_i) itself: inside the range of exp of
          \* every storage type (LogSmoothMax is the variant for the rest)
          (/\ \A k \in 1..Len(vs[i]) : Holds(ET, G[vs[i][k]])
-          /\ (op = "SmoothMax" => ~RLt(RInt(80), TopAlphaX(ValsAt(vs[i]), RatOfV(al))))) =>
+          /\ (op = "SmoothMax" => /\ ~RLt(RInt(80), TopAlphaX(ValsAt(vs[i]), RatOfV(al)))
+                                   /\ ~RLt(TopAlphaX(ValsAt(vs[i]), RatOfV(al)), RInt(-80)))) =>
          LET n == Len(vs[i])
              second == IF op = "VdotV" THEN ValsAt(ws[i]) ELSE NoVec
              base0 == VCase(op, R, ET, st, ValsAt(vs[i]), second, al, VTerm(VecExpTerm(op, ValsAt(vs[i]), RatOfV(al))))
              \* a mean with positive weights lies between the smallest and the largest entry
-             base == IF op \in {"SmoothMax", "LogSmoothMax"}
-                     THEN base0 @@ [lo |-> MinOfVals(ValsAt(vs[i])), hi |-> MaxOfVals(ValsAt(vs[i]))] ELSE base0
+             \* `cond`: LogSmoothMax is exp of a difference of log-scale quantities of size |alpha x_i| + |log x_i|;
+             \* their rounding is an ABSOLUTE error of the exponent, i.e. a relative error cond * u of the result
+             alr == RatOfV(al)
+             top == TopAlphaX(ValsAt(vs[i]), IF alr.n < 0 THEN RNeg(alr) ELSE alr)
+             cond == (top.n \div top.d) + 16
+             base1 == IF op \in {"SmoothMax", "LogSmoothMax"}
+                      THEN base0 @@ [lo |-> MinOfVals(ValsAt(vs[i])), hi |-> MaxOfVals(ValsAt(vs[i]))] ELSE base0
+             base == IF op = "LogSmoothMax" THEN base1 @@ [cond |-> cond] ELSE base1
          IN \* `dev`: what the code is known to compute instead (known finding Mnorm without the square root);
             \* an observation that misses `exp` is that finding only if it equals `dev`
             IF op = "Mnorm"
